@@ -466,29 +466,56 @@ def zcheck(s, *assumptions, ms=None):
     return r
 
 
+_RECIP_EXPR = {}     # ast id -> (expr kept alive, encoded expr)
+_RECIP_DEN = {}      # denominator ast id -> (den expr, encoded den, inv const)
+
+
 def _recip_encode(fmls):
-    """replace every distinct denominator D by a fresh inv_D with inv_D*D = 1"""
-    cache = {}
-    side = []
+    """replace every distinct denominator D by a fresh inv_D with inv_D*D = 1 (memoised per sub-term)"""
 
     def walk(e):
-        if z3.is_app(e) and e.decl().kind() == z3.Z3_OP_DIV:
-            a, b = walk(e.arg(0)), walk(e.arg(1))
-            if z3.is_rational_value(b):
-                return a / b
-            k = b.get_id()
-            if k not in cache:
-                inv = z3.Real("inv!%d" % len(cache))
-                cache[k] = inv
-                side.append(inv * b == 1)
-            return a * cache[k]
+        k = e.get_id()
+        hit = _RECIP_EXPR.get(k)
+        if hit is not None:
+            return hit[1]
         if z3.is_app(e) and e.num_args() > 0:
-            args = [walk(e.arg(i)) for i in range(e.num_args())]
-            return e.decl()(*args)
-        return e
+            args = [walk(c) for c in e.children()]
+            if e.decl().kind() == z3.Z3_OP_DIV and not z3.is_rational_value(e.arg(1)):
+                dk = e.arg(1).get_id()
+                if dk not in _RECIP_DEN:
+                    _RECIP_DEN[dk] = (e.arg(1), args[1], z3.Real("inv!%d" % len(_RECIP_DEN)))
+                out = args[0] * _RECIP_DEN[dk][2]
+            else:
+                out = e.decl()(*args)
+        else:
+            out = e
+        _RECIP_EXPR[k] = (e, out)
+        return out
 
     out = [walk(f) for f in fmls]
+    used = set()
+    for f in fmls:
+        used |= _dens_below(f)
+    side = [_RECIP_DEN[dk][2] * _RECIP_DEN[dk][1] == 1 for dk in sorted(used)]
     return out + side
+
+
+_DENS_BELOW = {}
+
+
+def _dens_below(e):
+    k = e.get_id()
+    hit = _DENS_BELOW.get(k)
+    if hit is not None:
+        return hit[1]
+    acc = set()
+    if z3.is_app(e) and e.num_args() > 0:
+        for c in e.children():
+            acc |= set(_dens_below(c))
+        if e.decl().kind() == z3.Z3_OP_DIV and not z3.is_rational_value(e.arg(1)):
+            acc.add(e.arg(1).get_id())
+    _DENS_BELOW[k] = (e, frozenset(acc))
+    return _DENS_BELOW[k][1]
 
 
 class Verdict(object):
@@ -532,18 +559,30 @@ def solve(fmls, timeout_ms=Z3_VERDICT_TIMEOUT_MS, want_model=True):
     t0 = time.time()
     attempts = []
     fmls = list(fmls)
-    short = min(2000, timeout_ms)
-    stages = [("plain", fmls, short), ("nlsat", fmls, timeout_ms)]
+    stages = [("plain", fmls, min(400, timeout_ms))]
     enc = None
+    for kind, f, to in stages:
+        try:
+            r, m = _try(kind, f, to)
+        except z3.Z3Exception:
+            r, m = z3.unknown, None
+        attempts.append("%s:%s" % (kind, r))
+        if r == z3.unsat:
+            return Verdict("unsat", None, time.time() - t0, ",".join(attempts))
+        if r == z3.sat:
+            return Verdict("sat", m, time.time() - t0, ",".join(attempts))
+    stages = []
     if _has_div(fmls):
         try:
             enc = _recip_encode(fmls)
         except z3.Z3Exception:
             enc = None
-        if enc is not None:
-            stages = [("plain", enc, short), ("nlsat", enc, min(5000, timeout_ms)), ("plain", fmls, short),
-                      ("nlsat", fmls, min(5000, timeout_ms)), ("nlsat", enc, timeout_ms), ("plain", enc, timeout_ms)]
-    stages.append(("plain", fmls, timeout_ms))
+    if enc is not None:
+        stages += [("plain", enc, min(2000, timeout_ms)), ("nlsat", enc, min(5000, timeout_ms))]
+    stages += [("plain", fmls, min(2000, timeout_ms)), ("nlsat", fmls, min(5000, timeout_ms))]
+    if enc is not None:
+        stages += [("nlsat", enc, timeout_ms), ("plain", enc, timeout_ms)]
+    stages += [("nlsat", fmls, timeout_ms), ("plain", fmls, timeout_ms)]
     for kind, f, to in stages:
         try:
             r, m = _try(kind, f, to)
